@@ -256,6 +256,35 @@ def shard(ctx):
                     ctx.violation("named-not", "named-rule negation: got %s expected %s\n%s" % (got, exp, text),
                                   {"rules": text, "data": DOCS, "law": "named", "expected": list(exp)})
 
+    # ---- the left-hand side is ONE value that is itself a list (possibly empty): `Ports in [80, 443]`, `Ports == [80]` and every negated spelling
+    if ctx.mine(2):
+        for lv in ([], [80], [80, 443], [8080], [8080, 9090], 80, 8080):      # (elements with uniform outcomes: mixed ones make both polarities FAIL)
+            ldoc = json.dumps({"Ports": lv, "m": {"Ports": lv}})
+            for q_ in ("Ports", "m.Ports", "m.*"):
+                for op_, nop_, rhs_ in (("in", "not in", "[80, 443]"), ("in", "not in", "[80, 443, 1]"), ("IN", "NOT IN", "[443, 80]")):
+                    text = ("rule b {\n    %s %s %s\n}\nrule n1 {\n    not %s %s %s\n}\nrule n2 {\n    %s %s %s\n}\nrule n3 {\n    !%s %s %s\n}\nrule d {\n    not %s %s %s\n}\n" % (
+                        q_, op_, rhs_, q_, op_, rhs_, q_, nop_, rhs_, q_, op_, rhs_, q_, nop_, rhs_))
+                    res = ctx.w.run({"k": "rc", "data": ldoc, "rules": text, "verbose": False})
+                    kind, st, _ = obs.rc_statuses(res)
+                    ctx.res.cases += 1
+                    if kind != "ok":
+                        ctx.inconclusive("crash" if core.crash_signature(res) else "list-valued-lhs-error")
+                        continue
+                    ctx.res.counts["list_valued_lhs_groups"] += 1
+                    if st.get("b") not in ("PASS", "FAIL"):
+                        continue
+                    for nm, law in (("n1", "flip"), ("n2", "flip"), ("n3", "flip")):
+                        if st.get(nm) != FLIP.get(st.get("b")):
+                            ctx.violation("flip:list-valued-lhs:%s" % ("empty-list" if lv == [] else "list" if isinstance(lv, list) else "scalar"),
+                                          "`%s %s %s` is %s on Ports=%s, its negation (%s) is %s" % (q_, op_, rhs_, st.get("b"), json.dumps(lv), nm, st.get(nm)),
+                                          {"rules": text, "data": ldoc, "law": "flip", "a": nm, "b": "b"})
+                            break
+                    else:
+                        if st.get("d") != st.get("b"):
+                            ctx.violation("double-negation:list-valued-lhs", "`not %s %s %s` is %s, the plain clause %s (Ports=%s)" % (q_, nop_, rhs_, st.get("d"), st.get("b"), json.dumps(lv)),
+                                          {"rules": text, "data": ldoc, "law": "double-negation", "a": "d", "b": "b"})
+                        else:
+                            ctx.res.distinct.add(("list-valued-lhs", op_, rhs_, st.get("b")))
     # ---- parameterised rule calls: `not P(args)` is PASS exactly when the call is not PASS (same inversion as for `not R`)
     if ctx.mine(1):
         gad = {"PASS": "%x == 5", "FAIL": "%x == 6", "SKIP": "lm[ x == 99 ].x == %x"}
